@@ -64,11 +64,22 @@ def expected_words(first, count):
     return [x for k in range(count) for x in words_of(first + k)]
 
 
-def entity_lines(i, e, nd, marks, stmt, closer, ind="  "):
-    """Lines of entity i following DocRoute.AddEntity, with real statements."""
+META_OK = ("pre1", "pre2", "after1", "after2", "pre1_after1")      # placements whose first comment stands on a line of its own
+
+
+def meta_value(nd):
+    return f"au{nd:02d}y"
+
+
+def entity_lines(i, e, nd, marks, stmt, closer, ind="  ", meta=False):
+    """Lines of entity i following DocRoute.AddEntity, with real statements.  meta: the entity's documentation starts with a
+    metadata line (`author: ...`) in the style of its first comment."""
     p = e["p"]
     D, P, DA, PA = marks["docmark"], marks["predocmark"], marks["docmark_alt"], marks["predocmark_alt"]
     out = []
+    meta = meta and p in META_OK
+    if meta and p in ("pre1", "pre2", "pre1_after1"):
+        out.append(f"{ind}!{P} author: {meta_value(nd)}")
     if p in ("pre1", "pre1_inline", "pre1_after1"):
         out.append(f"{ind}!{P} {text(nd)}")
     elif p == "pre2":
@@ -82,6 +93,8 @@ def entity_lines(i, e, nd, marks, stmt, closer, ind="  "):
         out.append(f"{ind}{stmt} !{D} {text(m)}")
     else:
         out.append(f"{ind}{stmt}")
+    if meta and p in ("after1", "after2"):
+        out.append(f"{ind}!{D} author: {meta_value(nd)}")
     if p in ("after1", "pre1_after1"):
         out.append(f"{ind}!{D} {text(m)}")
     elif p == "after2":
@@ -93,10 +106,15 @@ def entity_lines(i, e, nd, marks, stmt, closer, ind="  "):
     return out
 
 
+RENDER_METAS = []      # (locator, author value) of the entities whose documentation starts with a metadata line (last rendering)
+
+
 def render_routing(ents, ctx, marks, head=0):
     """Returns (source text, list of (locator, expected words)).  head = 1: the container carries its own documentation
     directly after its opening statement (DocRoute.head) and the file carries documentation before the first unit."""
     lines, expect = [], []
+    metas = RENDER_METAS
+    metas.clear()
     nd = head
     D = marks["docmark"]
     hd = lambda ind: [f"{ind}!{D} {text(0)}"] if head else []
@@ -120,8 +138,10 @@ def render_routing(ents, ctx, marks, head=0):
                     stmt, closer, loc = f"interface g{i}", [f"    module procedure impl{i}", f"  end interface g{i}"], ("interface", f"g{i}")
                 else:
                     stmt, closer, loc = f"type, public :: t{i}", [f"    real :: comp{i}", f"  end type t{i}"], ("type", f"t{i}")
-            lines += entity_lines(i, e, nd, marks, stmt, closer)
+            lines += entity_lines(i, e, nd, marks, stmt, closer, meta=bool(head))
             expect.append((loc, expected_words(nd, n_docs(e["p"]))))
+            if head and e["p"] in META_OK:
+                metas.append((loc, meta_value(nd)))
             nd += n_docs(e["p"])
         lines.append("contains")
         for i, e in enumerate(ents, start=1):
@@ -137,8 +157,10 @@ def render_routing(ents, ctx, marks, head=0):
                 stmt, closer, loc = f"subroutine s{i}(a)", ["    integer :: a", f"  end subroutine s{i}"], ("proc", f"s{i}")
             else:
                 stmt, closer, loc = f"function s{i}(a) result(r)", ["    integer :: a, r", "    r = a", f"  end function s{i}"], ("proc", f"s{i}")
-            lines += entity_lines(i, e, nd, marks, stmt, closer)
+            lines += entity_lines(i, e, nd, marks, stmt, closer, meta=bool(head))
             expect.append((loc, expected_words(nd, n_docs(e["p"]))))
+            if head and e["p"] in META_OK:
+                metas.append((loc, meta_value(nd)))
             nd += n_docs(e["p"])
         lines.append("end module m")
     elif ctx == "type":
@@ -147,8 +169,10 @@ def render_routing(ents, ctx, marks, head=0):
             expect.append((("container", "holder"), words_of(0)))
         for i, e in enumerate(ents, start=1):
             stmt = f"integer :: c{i}" if i % 2 else f"real, allocatable :: c{i}(:)"
-            lines += entity_lines(i, e, nd, marks, stmt, [], ind="    ")
+            lines += entity_lines(i, e, nd, marks, stmt, [], ind="    ", meta=bool(head))
             expect.append((("component", f"c{i}"), expected_words(nd, n_docs(e["p"]))))
+            if head and e["p"] in META_OK:
+                metas.append((("component", f"c{i}"), meta_value(nd)))
             nd += n_docs(e["p"])
         lines += ["  end type holder", "end module m"]
     elif ctx == "args":
@@ -157,8 +181,10 @@ def render_routing(ents, ctx, marks, head=0):
             expect.append((("container", "outer"), words_of(0)))
         for i, e in enumerate(ents, start=1):
             stmt = f"integer, intent(in) :: a{i}" if i % 2 else f"real, intent(inout) :: a{i}"
-            lines += entity_lines(i, e, nd, marks, stmt, [])
+            lines += entity_lines(i, e, nd, marks, stmt, [], meta=bool(head))
             expect.append((("arg", f"a{i}"), expected_words(nd, n_docs(e["p"]))))
+            if head and e["p"] in META_OK:
+                metas.append((("arg", f"a{i}"), meta_value(nd)))
             nd += n_docs(e["p"])
         lines += ["end subroutine outer"]
     return "\n".join(lines) + "\n", expect
@@ -225,6 +251,15 @@ def evaluate_routing(case):
                         got = doc_words(ent)
                         if got != words:
                             bad.append(f"{loc[0]} {loc[1]}: documentation words {got}, its comments hold {words}")
+                    # a leading metadata line sets the entity's metadata and is not part of its documentation text
+                    for loc, val in list(RENDER_METAS):
+                        ent, _ = find(p, loc)
+                        if ent is None:
+                            continue
+                        if getattr(ent.meta, "author", None) != val:
+                            bad.append(f"{loc[0]} {loc[1]}: metadata line 'author: {val}' gave meta.author = {getattr(ent.meta, 'author', None)!r}")
+                        if val in " ".join(ent.doc_list):
+                            bad.append(f"{loc[0]} {loc[1]}: the metadata line is shown as documentation text: {ent.doc_list[:2]!r}")
                     # nothing may leak into the container (module / type / procedure itself has no comment)
                     top = p.modules[0] if p.modules else p.procedures[0]
                     own_top = words_of(0) if (head and ctx != "type") else []
